@@ -247,7 +247,7 @@ func damageByte(r *rand.Rand) byte {
 // plainDeny: the shapes of G the lexer is known to mis-read (C03's known findings) are kept
 // out of C07's journals: C07 is about damage to journals that parse.
 var plainDeny = map[string]bool{"desc.allcaps": true, "desc.leading-digit": true, "desc.colon": true,
-	"desc.currency": true, "desc.free": true, "tabgap": true, "crlf": true, "tight": true,
+	"desc.currency": true, "desc.free": true, "tabgap": true, "tight": true,
 	"com.lower": true, "com.script": true, "amt.sign-before-lcomm": true, "num.trail": true,
 	"acct.digit": true, "dir.Y": true, "com.quoted": true}
 
